@@ -68,9 +68,31 @@ def grep_forbidden():
     return hits
 
 
+def prop_files(prop):
+    """Props/<prop>.lean and Props/<prop>/*.lean (a property's theorems may be split by topic)"""
+    out = []
+    p = os.path.join(LEAN, "Props", prop + ".lean")
+    if os.path.exists(p):
+        out.append(p)
+    d = os.path.join(LEAN, "Props", prop)
+    if os.path.isdir(d):
+        out += sorted(os.path.join(d, f) for f in os.listdir(d) if f.endswith(".lean"))
+    return out
+
+
+def prop_modules(prop):
+    return [os.path.relpath(p, LEAN)[:-5].replace(os.sep, ".") for p in prop_files(prop)]
+
+
 def theorem_names(prop):
-    """(namespace-qualified) names of the theorems stated in Props/<prop>.lean"""
-    path = os.path.join(LEAN, "Props", prop + ".lean")
+    """(namespace-qualified) names of the theorems stated in the property's files"""
+    names = []
+    for path in prop_files(prop):
+        names += theorem_names_in(path)
+    return names
+
+
+def theorem_names_in(path):
     txt = strip_comments(open(path).read())
     ns = []
     names = []
@@ -99,7 +121,7 @@ def regenerate_tables():
 
 
 def lake_build(prop):
-    targets = ["CnfgenModel", "driver", "Props." + prop]
+    targets = ["CnfgenModel", "driver"] + prop_modules(prop)
     lock = open(os.path.join(LEAN, ".build.lock"), "w")
     fcntl.flock(lock, fcntl.LOCK_EX)
     try:
@@ -119,7 +141,8 @@ def audit(prop, names):
     os.makedirs(d, exist_ok=True)
     f = os.path.join(d, "Audit{}.lean".format(prop))
     with open(f, "w") as fh:
-        fh.write("import Props.{}\n".format(prop))
+        for m in prop_modules(prop):
+            fh.write("import {}\n".format(m))
         for n in names:
             fh.write("#print axioms {}\n".format(n))
     rc, out = sh(["lake", "env", "lean", f], cwd=LEAN, timeout=1200)
@@ -134,6 +157,73 @@ def audit(prop, names):
         else:
             res[n] = None
     return rc, out, res
+
+
+class Aggregate:
+    """harness/props/<prop>.py plus harness/props/<prop>_*.py behave as one module"""
+
+    def __init__(self, prop):
+        d = os.path.join(VERIF, "harness", "props")
+        names = sorted(f[:-3] for f in os.listdir(d)
+                       if f.endswith(".py") and (f[:-3] == prop or f.startswith(prop + "_")))
+        self.mods = [importlib.import_module("harness.props." + n) for n in names]
+        if not self.mods:
+            raise ImportError("no harness module for " + prop)
+
+    def _collect(self, attr):
+        out = []
+        for m in self.mods:
+            out += list(getattr(m, attr, []))
+        return out
+
+    @property
+    def TRUSTED_EXTRA(self):
+        return self._collect("TRUSTED_EXTRA")
+
+    @property
+    def NOTES(self):
+        return self._collect("NOTES")
+
+    @property
+    def ASSUMPTIONS(self):
+        return self._collect("ASSUMPTIONS")
+
+    @property
+    def RULE(self):
+        return " || ".join(getattr(m, "RULE", "") for m in self.mods if getattr(m, "RULE", ""))
+
+    def cases(self, ctx):
+        for m in self.mods:
+            for c in m.cases(ctx):
+                c._mod = m
+                yield c
+
+    def build(self, suite, info):
+        last = None
+        for m in self.mods:
+            try:
+                c = m.build(suite, info)
+            except (ValueError, KeyError) as e:
+                last = e
+                continue
+            if c is not None:
+                c._mod = m
+                return c
+        raise ValueError("no module builds suite {}: {}".format(suite, last))
+
+    def search(self, ctx, case):
+        m = getattr(case, "_mod", None)
+        if m is not None and hasattr(m, "search"):
+            return m.search(ctx, case)
+        return None
+
+    def search_global(self, ctx):
+        for m in self.mods:
+            if hasattr(m, "search_global"):
+                r = m.search_global(ctx)
+                if r is not None:
+                    return r
+        return None
 
 
 def load_known():
@@ -202,7 +292,7 @@ def main(argv=None):
     prop = args.prop
     seed = common.seed_from_env()
     t_start = time.time()
-    mod = importlib.import_module("harness.props." + prop)
+    mod = Aggregate(prop)
 
     violations = []     # (replay_path, suffix)
     known_lines = []
@@ -300,7 +390,7 @@ def main(argv=None):
             continue
         payload = {k2: v for k2, v in d.items() if not k2.startswith("_")}
         found = None
-        if hasattr(mod, "search"):
+        if True:
             try:
                 found = mod.search(ctx, d["_case"])
             except Exception as e:  # the search must never mask the report
@@ -317,7 +407,7 @@ def main(argv=None):
     if broken_obligations:
         # a proof obligation does not check: property not shown to hold
         found = None
-        if hasattr(mod, "search_global"):
+        if True:
             try:
                 found = mod.search_global(ctx)
             except Exception as e:
@@ -362,7 +452,7 @@ def main(argv=None):
             "broken_obligations": broken_obligations,
             "evaluations": len(cases),
             "distinct_nontrivial": len(distinct),
-            "rule": getattr(mod, "RULE", "structured generators per suite; a case is distinct by its request line; trivial cases are flagged by the suite"),
+            "rule": mod.RULE or "structured generators per suite; a case is distinct by its request line; trivial cases are flagged by the suite",
             "samples": samples[:12] if samples else [{"note": "no correspondence case ran"}],
             "distribution": dist,
             "disagreements": len(dis),
